@@ -1,4 +1,5 @@
 """C04 — collider AABBs enclose and are tight (structural clauses; the closed-form extents are NOT decided)."""
+from . import scopes
 from ..core.report import DOMAIN_D
 from ..rules import colliders, frame, degree
 from .common import e2
@@ -7,6 +8,7 @@ MODS = {"distance3d.containment", "distance3d.colliders", "distance3d.geometry",
 
 
 def run(idx, rep, tier):
+    rep.set_scope(scopes.scope(idx, "C04"))
     rep.explanation = (
         "R-AABBARGS: each collider's aabb() calls the containment function of its own shape and hands every parameter the "
         "attribute stored from the same-named constructor parameter. R-MARGIN(BOX): Margin.aabb subtracts the margin from the "
@@ -17,11 +19,11 @@ def run(idx, rep, tier):
         "forms (e.g. the rotated-ellipsoid extent) are numerical and NOT decided.")
     rep.assumptions = DOMAIN_D
     colliders.r_aabbargs(idx, rep)
-    colliders.r_margin(idx, rep)
-    colliders.r_axis(idx, rep)
+    colliders.r_margin(idx, rep, floor=1)
+    colliders.r_axis(idx, rep, floor=3)
     fr_rets = e2(idx)
     wide = {m.name for m in idx.lib_modules() if "hydroelastic" not in m.name} | {"distance3d.hydroelastic_contact._rigid_body", "distance3d.hydroelastic_contact._mesh_processing"}
-    frame.r_frame(idx, rep, fr_rets, modules=MODS if tier == "quick" else wide, floor=40)
+    frame.r_frame(idx, rep, fr_rets, modules=wide, floor=40)
     frame.r_frame_contracts(idx, rep, fr_rets, ("aabb",), floor=8, unknown_ceiling=8)
     frame.r_worldaabb(idx, rep)
     degree.r_degree(idx, rep, modules=sorted(MODS), floor=20)
